@@ -491,6 +491,32 @@ theorem loop_spec (B : Path) (c : Nat) (P : FS → Prop) (fs2 : FS)
       exact hrun'
     · simpa using hinv'
 
+/-- A prefix of the operations of a `Write` that is long enough to contain the rename consists of
+everything up to the rename plus nothing or the whole tail (the removal of the old version). -/
+theorem take_writeOps (B : Path) (prev : Option Nat) (c : Nat) (files : Files) (k : Nat)
+    (hk : files.length + 5 ≤ k) :
+    ∃ tl, (tl = [] ∨ tl = tailOps B prev) ∧
+      (writeOps B prev c files).take k =
+        [.mkdirAll B, .mkdirAll (verDir B c)] ++ (wfOps B c files ++
+          ([.removeIfExists (targetNew B), .symlink (verDir B c) (targetNew B),
+            .rename (targetNew B) (target B)] ++ tl)) := by
+  rw [writeOps_eq]
+  have hwf : (wfOps B c files).length = files.length := by simp [wfOps]
+  rw [List.take_append, List.take_of_length_le (by simp; omega)]
+  rw [List.take_append, List.take_of_length_le (by simp [hwf]; omega)]
+  rw [List.take_append, List.take_of_length_le (by simp; omega)]
+  refine ⟨List.take (k - [Op.mkdirAll B, Op.mkdirAll (verDir B c)].length - (wfOps B c files).length -
+      [Op.removeIfExists (targetNew B), Op.symlink (verDir B c) (targetNew B),
+        Op.rename (targetNew B) (target B)].length) (tailOps B prev), ?_, rfl⟩
+  cases prev with
+  | none => left; simp [tailOps]
+  | some n =>
+    simp only [tailOps]
+    generalize (k - _ - _ - _) = j
+    cases j with
+    | zero => left; rfl
+    | succ j => right; simp
+
 /-- What a `Write` that ran to its end leaves behind. -/
 structure Final (B : Path) (c : Nat) (prev : Option Nat) (fs fs' : FS) (files : Files) : Prop where
   tgt : look fs' (target B) = some (.link (verDir B c))
@@ -523,7 +549,9 @@ theorem write_spec (B : Path) (fs : FS) (c : Nat) (H : List Files) (files : File
     (hW : W B fs c H)
     (hprev : ∀ n, prev = some n → n < c ∧ look fs (target B) = some (.link (verDir B n))) :
     Safe (Post B c files H fs) fs (writeOps B prev c files) ∧
-    ∃ fs', runOps fs (writeOps B prev c files) = (fs', none) ∧ Final B c prev fs fs' files := by
+    (∃ fs', runOps fs (writeOps B prev c files) = (fs', none) ∧ Final B c prev fs fs' files) ∧
+    (∀ k, files.length + 5 ≤ k →
+      look (runOps fs ((writeOps B prev c files).take k)).1 (target B) = some (.link (verDir B c))) := by
   -- phase A: the two MkdirAll calls
   obtain ⟨fs1, hr1, h1⟩ := mkdirAll_spec fs B hW.chain
   have hVnone : look fs (verDir B c) = none := by
@@ -720,11 +748,22 @@ theorem write_spec (B : Path) (fs : FS) (c : Nat) (H : List Files) (files : File
     intro tl htl
     refine safe_cons_ok hP0 (by simpa [Op.apply] using hr1) ?_
     exact safe_cons_ok hP1 (by simpa [Op.apply] using hr2) htl
-  rw [writeOps_eq]
+  have hafter : ∀ fsEnd, runOps fs6 (tailOps B prev) = (fsEnd, none) →
+      look fsEnd (target B) = some (.link (verDir B c)) →
+      ∀ k, files.length + 5 ≤ k →
+        look (runOps fs ((writeOps B prev c files).take k)).1 (target B) = some (.link (verDir B c)) := by
+    intro fsEnd hend hTend k hk
+    obtain ⟨tl, htl, htake⟩ := take_writeOps B prev c files k hk
+    rw [htake, hrunA, runOps_append_ok _ hr3, hrunC]
+    rcases htl with h | h
+    · subst h; simpa [runOps] using hT6
+    · subst h; rw [hend]; exact hTend
+  rw [writeOps_eq] at *
   -- phase D: remove the previous version
   cases prev with
   | none =>
-    refine ⟨hsafeA _ (safe_append hsafeB hr3 (hsafeC [] fs6 (safe_nil hP6))), fs6, ?_, ?_⟩
+    refine ⟨hsafeA _ (safe_append hsafeB hr3 (hsafeC [] fs6 (safe_nil hP6))), ⟨fs6, ?_, ?_⟩,
+      hafter fs6 rfl hT6⟩
     · rw [hrunA, runOps_append_ok _ hr3, hrunC]; rfl
     · exact ⟨hT6, hd6, hTN6, hm6, by simp, hbase6⟩
   | some n =>
@@ -761,7 +800,7 @@ theorem write_spec (B : Path) (fs : FS) (c : Nat) (H : List Files) (files : File
         fun _ => by rw [hT7]; simp⟩
     have e7 : (Op.removeAll (verDir B n)).apply fs6 = .ok fs7 := by simpa [Op.apply, verDir] using hr7
     refine ⟨hsafeA _ (safe_append hsafeB hr3 (hsafeC _ fs6 (safe_cons_ok hP6 e7 (safe_nil hP7)))),
-      fs7, ?_, ?_⟩
+      ⟨fs7, ?_, ?_⟩, hafter fs7 (by simp [tailOps, runOps, e7]) hT7⟩
     · rw [hrunA, runOps_append_ok _ hr3, hrunC]
       simp [tailOps, runOps, e7]
     · refine ⟨hT7, hd7, hTN7, hm7, ?_, ?_⟩
@@ -806,7 +845,7 @@ theorem inv_step (B : Path) (s : St) (H : List Files) (ev : Ev) (h : Inv B s H) 
   obtain ⟨hW, hp⟩ := h
   cases ev with
   | write files =>
-    obtain ⟨hsafe, fs', hrun, hfin⟩ := write_spec B s.fs s.clock H files s.prev hW hp
+    obtain ⟨hsafe, ⟨fs', hrun, hfin⟩, _⟩ := write_spec B s.fs s.clock H files s.prev hW hp
     have hP := safe_last hsafe hrun
     rw [hrun] at hP
     rw [step_write_eq B s files fs' hrun]
@@ -857,7 +896,7 @@ theorem write_result (B : Path) (s : St) (H : List Files) (files : Files) (h : I
     ∃ fs', step B s (.write files) =
         { fs := fs', clock := s.clock + 1, prev := some s.clock, lastErr := none } ∧
       Final B s.clock s.prev s.fs fs' files := by
-  obtain ⟨_, fs', hrun, hfin⟩ := write_spec B s.fs s.clock H files s.prev h.1 h.2
+  obtain ⟨_, ⟨fs', hrun, hfin⟩, _⟩ := write_spec B s.fs s.clock H files s.prev h.1 h.2
   exact ⟨fs', step_write_eq B s files fs' hrun, hfin⟩
 
 /-! ### crash-free histories: exactly one version directory -/
@@ -915,5 +954,153 @@ theorem cf_run (B : Path) (ws : List Files) : ∀ s, CF B s → CF B (run B s (w
 
 theorem cf_init (B : Path) (fs0 : FS) (h0 : Clean B fs0) : CF B (init fs0) :=
   ⟨⟨[], inv_init B fs0 h0⟩, by simpa [PreOnly, init] using h0.2⟩
+
+/-! ### crash after the rename: the target is present -/
+
+theorem crash_after_rename_present (B : Path) (s : St) (H : List Files) (files : Files) (k : Nat)
+    (h : Inv B s H) (hk : files.length + 5 ≤ k) :
+    look (step B s (.crash files k)).fs (target B) = some (.link (verDir B s.clock)) :=
+  (write_spec B s.fs s.clock H files s.prev h.1 h.2).2.2 k hk
+
+/-! ### the code before the repair: a stale `.new` blocks every later Write -/
+
+theorem mkdirChain_frame (qs : List Path) : ∀ (fs fs' : FS) (q : Path), q ∉ qs →
+    mkdirChain fs qs = .ok fs' → look fs' q = look fs q := by
+  induction qs with
+  | nil => intro fs fs' q _ h; simp [mkdirChain] at h; rw [h]
+  | cons q0 qs ih =>
+    intro fs fs' q hq h
+    have hne : q ≠ q0 := fun e => hq (by simp [e])
+    have hq' : q ∉ qs := fun e => hq (by simp [e])
+    cases h0 : look fs q0 with
+    | none =>
+      have hq0 : q0 ≠ [] := by intro e; subst e; simp [look] at h0
+      simp only [mkdirChain, h0] at h
+      rw [ih _ _ q hq' h, look_set _ _ _ _ hq0]
+      simp [hne]
+    | some nd =>
+      cases nd with
+      | dir => simp only [mkdirChain, h0] at h; exact ih _ _ q hq' h
+      | file b => simp [mkdirChain, h0] at h
+      | link t => simp [mkdirChain, h0] at h
+
+theorem writeFile_frame (fs fs' : FS) (p q : Path) (b : Bytes) (hq : q ≠ p)
+    (h : writeFile fs p b = .ok fs') : look fs' q = look fs q := by
+  unfold writeFile at h
+  by_cases hp : p = []
+  · simp [hp] at h
+  · simp only [hp, if_false] at h
+    cases hpe : parentErr fs p with
+    | some e => simp [hpe] at h
+    | none =>
+      simp only [hpe] at h
+      cases hl : look fs p with
+      | none =>
+        simp only [hl] at h
+        injection h with h; subst h
+        rw [look_set _ _ _ _ hp]; simp [hq]
+      | some nd =>
+        cases nd with
+        | dir => simp [hl] at h
+        | file b' =>
+          simp only [hl] at h
+          injection h with h; subst h
+          rw [look_set _ _ _ _ hp]; simp [hq]
+        | link t => simp [hl] at h
+
+/-- Operations that cannot change what is at path `q`. -/
+def NoTouch (q : Path) : Op → Prop
+  | .mkdirAll p => ¬ q <+: p
+  | .writeFile p _ => q ≠ p
+  | _ => False
+
+theorem runOps_frame (q : Path) (ops : List Op) : ∀ (fs : FS), (∀ op ∈ ops, NoTouch q op) →
+    look (runOps fs ops).1 q = look fs q := by
+  induction ops with
+  | nil => intro fs _; rfl
+  | cons op ops ih =>
+    intro fs h
+    have hop := h op (by simp)
+    have hrest : ∀ o ∈ ops, NoTouch q o := fun o ho => h o (by simp [ho])
+    simp only [runOps]
+    cases hap : op.apply fs with
+    | error e => rfl
+    | ok fs1 =>
+      simp only []
+      rw [ih fs1 hrest]
+      cases op with
+      | mkdirAll p =>
+        simp only [Op.apply, mkdirAll] at hap
+        exact mkdirChain_frame _ _ _ q (fun hm => hop ((mem_prefixes p q).1 hm).2) hap
+      | writeFile p b =>
+        simp only [Op.apply] at hap
+        exact writeFile_frame _ _ p q b hop hap
+      | removeIfExists p => exact absurd hop (by simp [NoTouch])
+      | symlink t p => exact absurd hop (by simp [NoTouch])
+      | rename o n => exact absurd hop (by simp [NoTouch])
+      | removeAll p => exact absurd hop (by simp [NoTouch])
+
+theorem runOps_append (fs : FS) (a b : List Op) :
+    runOps fs (a ++ b) =
+      match (runOps fs a).2 with
+      | none => runOps (runOps fs a).1 b
+      | some e => ((runOps fs a).1, some e) := by
+  induction a generalizing fs with
+  | nil => simp [runOps]
+  | cons op rest ih =>
+    simp only [List.cons_append, runOps]
+    cases hop : op.apply fs with
+    | ok fs1 => simp only []; exact ih fs1
+    | error e => simp
+
+theorem symlink_exists_fails (fs : FS) (to p : Path) (h : look fs p ≠ none) :
+    ∃ e, symlink fs to p = .error e := by
+  unfold symlink
+  by_cases hp : p = []
+  · exact ⟨.EEXIST, by simp [hp]⟩
+  · simp only [hp, if_false]
+    cases parentErr fs p with
+    | some e => exact ⟨e, rfl⟩
+    | none =>
+      cases hl : look fs p with
+      | none => exact absurd hl h
+      | some nd => exact ⟨.EEXIST, rfl⟩
+
+theorem origOps_eq (B : Path) (prev : Option Nat) (c : Nat) (files : Files) :
+    writeOpsOf origSteps B prev c files =
+      ([.mkdirAll B, .mkdirAll (verDir B c)] ++ wfOps B c files) ++
+        (.symlink (verDir B c) (targetNew B) :: (.rename (targetNew B) (target B) :: tailOps B prev)) := by
+  cases prev <;> simp [writeOpsOf, origSteps, stepOps, wfOps, tailOps]
+
+theorem orig_runOps_blocked (B : Path) (fs : FS) (prev : Option Nat) (c : Nat) (files : Files)
+    (h : look fs (targetNew B) ≠ none) :
+    (runOps fs (writeOpsOf origSteps B prev c files)).2 ≠ none ∧
+    look (runOps fs (writeOpsOf origSteps B prev c files)).1 (targetNew B) ≠ none := by
+  have hpre : ∀ op ∈ ([.mkdirAll B, .mkdirAll (verDir B c)] ++ wfOps B c files : List Op),
+      NoTouch (targetNew B) op := by
+    intro op hop
+    simp only [List.mem_append, List.mem_cons, List.not_mem_nil, or_false, wfOps, List.mem_map] at hop
+    rcases hop with (rfl | rfl) | ⟨kb, _, rfl⟩
+    · exact not_ext_prefix B _ []
+    · exact targetNew_not_prefix_ver B _
+    · simp [NoTouch, targetNew, verDir]
+  have hframe := runOps_frame (targetNew B) _ fs hpre
+  rw [origOps_eq, runOps_append]
+  generalize hr : runOps fs ([.mkdirAll B, .mkdirAll (verDir B c)] ++ wfOps B c files) = r at hframe
+  obtain ⟨fs3, e⟩ := r
+  cases e with
+  | some e => exact ⟨by simp, by simpa using (by rw [hframe]; exact h)⟩
+  | none =>
+    simp only at hframe ⊢
+    obtain ⟨e, hsym⟩ := symlink_exists_fails fs3 (verDir B c) (targetNew B) (by rw [hframe]; exact h)
+    simp only [runOps, Op.apply, hsym]
+    exact ⟨by simp, by rw [hframe]; exact h⟩
+
+/-- Before the repair: if `<target>.new` exists, a `Write` fails and leaves it in place. -/
+theorem orig_write_blocked (B : Path) (s : St) (files : Files)
+    (h : look s.fs (targetNew B) ≠ none) :
+    (stepWith origSteps B s (.write files)).lastErr ≠ none ∧
+    look (stepWith origSteps B s (.write files)).fs (targetNew B) ≠ none :=
+  orig_runOps_blocked B s.fs s.prev s.clock files h
 
 end Kit.Dir
